@@ -182,10 +182,11 @@ PostingRows(led) ==
             account |-> p.account, lot |-> p.lot, currency |-> p.lot[1]]]
 DirRows(led) == [i \in 1..Len(led) |-> DirPoolV[led[i]]]
 
-Ledgers == UNION {{s \in [1..n -> 1..Len(PoolV)] : \A i \in 1..(n - 1) : PoolV[s[i]].txn <= PoolV[s[i + 1]].txn}
-                  : n \in 0..MaxPostings}
-DirLedgers == UNION {{s \in [1..n -> 1..Len(DirPoolV)] : \A i \in 1..(n - 1) : DirPoolV[s[i]].date <= DirPoolV[s[i + 1]].date}
-                     : n \in 0..MaxDirs}
+\* (operators with a parameter: TLC evaluates parameterless constant definitions at start-up even when unused)
+Ledgers(m) == UNION {{s \in [1..n -> 1..Len(PoolV)] : \A i \in 1..(n - 1) : PoolV[s[i]].txn <= PoolV[s[i + 1]].txn}
+                     : n \in 0..m}
+DirLedgers(m) == UNION {{s \in [1..n -> 1..Len(DirPoolV)] : \A i \in 1..(n - 1) : DirPoolV[s[i]].date <= DirPoolV[s[i + 1]].date}
+                        : n \in 0..m}
 
 -----------------------------------------------------------------------------
 (* part 3: the declarative meaning (rows: the FROM-summarised posting / directive rows, in ledger order) *)
@@ -369,8 +370,8 @@ Rows == IF tbl = "postings" THEN PostingRows(ledger) ELSE DirRows(ledger)
 Q == IF tbl = "postings" THEN QTab[si] ELSE PrintQTab[si]       \* the compiled query (defined once phase # "stmt")
 
 Init ==
-    /\ \/ tbl = "postings" /\ ledger \in Ledgers /\ si \in 1..Len(ShapesV)
-       \/ tbl = "entries" /\ ledger \in DirLedgers /\ si \in 1..Len(PrintShapesV)
+    /\ \/ tbl = "postings" /\ ledger \in Ledgers(MaxPostings) /\ si \in 1..Len(ShapesV)
+       \/ tbl = "entries" /\ ledger \in DirLedgers(MaxDirs) /\ si \in 1..Len(PrintShapesV)
     /\ phase = "stmt" /\ pos = 1 /\ ctxbal = {} /\ out = <<>> /\ gkeys = <<>> /\ gvals = <<>>
 
 \* Compiler._balances / _journal: rewrite into a SELECT, compile it
